@@ -143,6 +143,10 @@ SNIPPETS = [
     "lst{n} = [x for x in [{a}]]\nlst{n} #P\nlst{n}[0] #P",
     "for e{n} in [{a}, {a}]:\n    e{n} #P",
     "for e{n} in ({a}, {b}):\n    e{n} #PU",
+    "class GA{n}:\n    pass\nclass GB{n}:\n    pass\nclass GS{n}:\n    pass\ndef gen{n}():\n    for item in (GA{n}(), GB{n}()):\n        yield item\n        yield GS{n}()\ng1{n}, g2{n}, g3{n}, g4{n} = gen{n}()\ng1{n} #P\ng2{n} #P\ng3{n} #P\ng4{n} #P",
+    "def gen{n}():\n    yield {a}\n    yield {b}\n    yield {a}\nu1{n}, u2{n}, u3{n} = gen{n}()\nu1{n} #P\nu2{n} #P\nu3{n} #P",
+    "def inner{n}():\n    yield {a}\n    yield {b}\ndef outer{n}():\n    yield from inner{n}()\ny1{n}, y2{n} = outer{n}()\ny1{n} #P\ny2{n} #P",
+    "def gen{n}():\n    for k in [{a}]:\n        yield k\n    yield {b}\nw1{n}, w2{n} = gen{n}()\nw1{n} #P\nw2{n} #P",
     # container literals and indexing
     "t{n} = ({a}, {b})\nt{n}[0] #P\nt{n}[1] #P",
     "l{n} = [{a}, {a}]\nl{n}[0] #P",
